@@ -1,5 +1,4 @@
 import math
-import random
 import numpy as np
 from pydantic import BaseModel
 import concurrent.futures as parallel
@@ -264,7 +263,7 @@ def average_fitness(population: list[T]) -> float:
 
 def get_partner_index(index: int, num_elements: int) -> int:
     while True:
-        partner_index = random.randint(0, num_elements - 1)
+        partner_index = np.random.randint(0, num_elements)
         if partner_index != index:
             break
     return partner_index
